@@ -701,7 +701,9 @@ def run(ctx, deep=False):
         "cascade types on random graphs of 2-6 self-referential nodes, 3 relationships (two many-to-many lists, one many-to-one) with random "
         "cascade settings (%d mapping variants), cycles, self loops, shared children, random halt_on sets; (3) Session.add (with objects "
         "already in the session) / delete / expunge / expire / refresh / merge on the same graphs + flush and rows; (4) delete-orphan "
-        "sequences (remove / move / delete parent / flush) on a parent-child-subchild mapping; non-trivial = graph with at least one edge" % (10 if thorough else 5)
+        "sequences (remove / move / delete parent / flush) on a parent-child-subchild mapping; (5) object-graph histories over the delete-orphan "
+        "families of harness/lib_graph.py (bidirectional and one-directional, three levels, subclass members, orphans whose parent is not "
+        "part of the flush, remove + delete parent in one flush) with the tables/reload oracle; non-trivial = graph with at least one edge" % (10 if thorough else 5)
     )
     ctx.trusted.append("session-level lifecycle semantics are checked by the closure oracle only (the Lean model covers the traversal)")
     ctx.trusted.append("SQLite in-memory is the only backend executed")
@@ -808,11 +810,38 @@ def run(ctx, deep=False):
         ctx.count("part=m2o-orphan")
         if bad:
             ctx.violation("c39:" + bad[0], case, bad[1])
+    run_graph_part(ctx, deep)
     if ctx.driver_ok():
         bad = ["cascade iter 3 1.1 - - 0", "cascade iter x 1.1.1 - - 0", "cascade frob"]
         ctx.correspond("corr/c39:malformed-rejected", [{"line": l} for l in bad], ["bad-op"] * len(bad), ctx.driver(bad))
         ctx.correspond("corr/c39:CascadeOptions-vs-Gen.CascadeTable.normalize", cases1, impl1, ctx.driver(req1))
         ctx.correspond("corr/c39:Mapper.cascade_iterator-vs-Model.Cascade", cases2, impl2, ctx.driver(req2))
+
+
+GRAPH_PROFILES = ["o2m", "oneway", "chain", "chain", "cycle"]
+
+
+def run_graph_part(ctx, deep=False):
+    """(5) delete / delete-orphan cascades on whole object-graph histories (harness/lib_graph.py):
+    the families with delete-orphan collections - bidirectional (parent/child, person/car) and
+    one-directional (folder/file, dept/team/task three levels), members that are instances of a
+    single-table SUBCLASS of the relationship target, orphans whose former parent takes no part
+    in the flush (parent never added to the Session; Session.flush([orphan])), member removed and
+    parent deleted in one flush. Oracle: tables and a fresh-session reload equal the intended
+    graph (cascade rules as configured), foreign keys enforced."""
+    import os
+
+    from harness import lib_graph_check as K
+
+    thorough = ctx.tier == "thorough" or deep
+    cases = K.run_random("C39", ctx.seed, "deep" if deep else ctx.tier, 24 if thorough else 6, 300 if thorough else 110,
+                         (4, 10) if thorough else (3, 7), procs=int(os.environ.get("VERIF_PROCS", "6")), profiles=GRAPH_PROFILES)
+    for prof, rounds, f, _d, nst, _k in cases:
+        ctx.case(rounds, nontrivial=nst > 2)
+        ctx.count("part=graph/%s" % prof)
+        if f is not None and f["kind"] != "inapplicable":
+            key = "c39:graph-%s-%s" % (f["kind"], f.get("table") or f.get("exc"))
+            ctx.violation(key, {"graph": True, "rounds": rounds[: f["round"] + 1]}, f["detail"])
 
 
 def search(ctx, broken):
@@ -830,6 +859,14 @@ def replay(ctx, obj):
         got = [int(co.save_update), int(co.delete), int(co.refresh_expire), int(co.merge), int(co.expunge), int(co.delete_orphan)]
         print("replay C39 options %r -> %s, rules %s" % (case["options"], got, spec_flags(case["options"])))
         return got != spec_flags(case["options"])
+    if case.get("graph"):
+        from harness import lib_graph_check as K
+
+        res, f = K.replay_case(case["rounds"], attempts=12)
+        for rd, r in zip(case["rounds"], res):
+            print("round:", rd["muts"], "->", rd["end"], "| error:", r["error"])
+        print("oracle:", f)
+        return f is not None
     if case.get("m2o"):
         bad = run_m2o_case(case)
         print("replay C39 m2o-orphan %s -> %s" % (json.dumps(case), bad))
